@@ -4,7 +4,7 @@ from props import endpoint
 
 
 def check(pid, tier, replay):
-    names = ["da", "db", "dh", "h0", "lb"] if tier == "thorough" else ["a", "b", "h", "h0", "lb"]
+    names = ["da", "db", "dh", "h0", "lb", "m"] if tier == "thorough" else ["a", "b", "h", "h0", "lb", "m"]
     gens = [("endpoint/CreditGen", "endpoint/CreditGen_%s.cfg" % n) for n in names]
     models = [("endpoint/Credit", "endpoint/Credit.cfg"), ("endpoint/CreditWake", "endpoint/CreditWake.cfg")]
     if not replay:
@@ -15,4 +15,4 @@ def check(pid, tier, replay):
     endpoint.run(pid, tier, replay, ("C08_",), models, gens,
                  "after a fixed handshake every sequence up to the depth bound over {send 1 frame, send 3 frames, grant 0/1/2 exact, grant lagging, grant with unset "
                  "delivery-count, drain 1/2, echo}, delivery-counts starting at 1000 and just below 2^32, closed by a generous grant; plus the same with the sending task "
-                 "parked at the schedule point credit.after_failed_check while the first grant is applied; the depth-3 scripts also against a sender link accepted by a listener; distinct = distinct scripts")
+                 "parked at the schedule point credit.after_failed_check while the first grant is applied; the depth-3 scripts also against a sender link accepted by a listener and with a peer max-message-size of 200 (the 3-frame send becomes six link-level transfers for one credit); distinct = distinct scripts")
